@@ -294,8 +294,12 @@ def main(argv):
     kf = [f for f in known.get("findings", []) if f["property"] == pid]
     kf_hit = {}
     spec_viol, corr_only = [], []
-    if res:
+    def judge(res, seed_used, rd):
+        """verdict on one generator pass (the pass of the run's seed, or a further pass under another
+        seed when the drift sentinel reports edits in the files the property is anchored in)"""
+        extra = {} if seed_used == seed else dict(seed=seed_used, found_by="further generator pass (drift sentinel)")
         meta, replays = res["meta"], res["replays"]
+        sv, co = [], []
         if res["shard_errors"]:
             violations.append(("the Coq side of the correspondence failed to evaluate: " + res["shard_errors"][0][:300],
                                dict(kind="correspondence", component="coqc on cases", detail=res["shard_errors"]), True))
@@ -315,20 +319,22 @@ def main(argv):
             if f is not None or code >= 2:
                 what = f["what"] if f else cfg.get("codes", {}).get(code, "the implementation's output violates the specification (code %d)" % code)
                 sig = f["sig"] if f else "%s/code%d" % (pid, code)
-                spec_viol.append((ci, what, sig, rep, code))
+                sv.append((ci, what, sig, rep, code))
             else:
-                corr_only.append((ci, code, rep))
-        for ci, what, sig, rep, code in spec_viol:
+                co.append((ci, code, rep))
+        spec_viol.extend(sv)
+        corr_only.extend(co)
+        for ci, what, sig, rep, code in sv:
             hit = next((k for k in kf if k["sig"] == sig or (k.get("sig_prefix") and sig.startswith(k["sig_prefix"]))), None)
             if hit:
                 kf_hit.setdefault(hit["id"], (hit, 0))
                 kf_hit[hit["id"]] = (hit, kf_hit[hit["id"]][1] + 1)
             else:
                 violations.append((what, dict(kind="spec-violation", case_index=ci, what=what, signature=sig,
-                                              coq_code=code, input=rep), False))
-        if corr_only and not violations:
+                                              coq_code=code, input=rep, **extra), False))
+        if co and not violations:
             # correspondence broken, no violating input among the cases: widen the search
-            sres = run_cases(pid, tier, seed + 7919, rundir + "_search", search=True)
+            sres = run_cases(pid, tier, seed_used + 7919, rd + "_search", search=True)
             found = False
             if "error" not in sres:
                 sf = {f["case"]: f for f in sres["meta"].get("impl_fails") or []}
@@ -340,16 +346,40 @@ def main(argv):
                         continue
                     what = f["what"] if f else "the implementation's output violates the specification (code %d)" % sc[ci]
                     violations.append((what, dict(kind="spec-violation", found_by="widened search", case_index=ci,
-                                                  seed=seed + 7919, search=True, what=what, signature=sig,
+                                                  seed=seed_used + 7919, search=True, what=what, signature=sig,
                                                   input=sres["replays"][ci]), False))
                     found = True
                     break
             if not found:
-                ci, code, rep = corr_only[0]
-                violations.append(("model and implementation disagree on %d case(s); no input violating the property found" % len(corr_only),
+                ci, code, rep = co[0]
+                violations.append(("model and implementation disagree on %d case(s); no input violating the property found" % len(co),
                                    dict(kind="correspondence", component=cfg.get("component", "Corr/%s.v" % pid),
                                         broken="correspondence between the Coq twin and /repo",
-                                        disagreements=len(corr_only), case_index=ci, coq_code=code, input=rep), True))
+                                        disagreements=len(co), case_index=ci, coq_code=code, input=rep, **extra), True))
+
+    drift, drift_passes = {}, []
+    if res:
+        judge(res, seed, rundir)
+        # drift sentinel: declarations of the anchored files that differ from the validated baseline
+        # deepen the comparison (further generator passes under other seeds); never an alarm by itself
+        try:
+            import drift as _drift
+            drift = _drift.drift_for(pid, REPO)
+        except Exception as ex:  # the sentinel must never break a check
+            notes.append("drift sentinel unavailable: %r" % ex)
+        n_extra = int(os.environ.get("VERIF_DRIFT_PASSES", "2"))
+        if drift and tier == "quick" and not violations and replay_in is None and not a.no_build:
+            for k in range(1, n_extra + 1):
+                s2 = seed + 1000003 * k
+                r2 = run_cases(pid, tier, s2, rundir + "_drift%d" % k)
+                if "error" in r2:
+                    notes.append("further pass under seed %d failed to run: %s" % (s2, r2["error"][:200]))
+                    continue
+                drift_passes.append(dict(seed=s2, cases=r2["meta"]["cases"]))
+                judge(r2, s2, rundir + "_drift%d" % k)
+                if violations:
+                    break
+
     if not proof_ok:
         # a broken proof obligation: report a failing input if the cases exhibit one, else no-failing-input-found
         if not any(not v[2] for v in violations):
@@ -389,6 +419,11 @@ def main(argv):
     )
     if coqchk_out:
         cov["coqchk"] = coqchk_out
+    if drift:
+        cov["drift"] = dict(changed_declarations=drift, further_passes=drift_passes,
+                            note="declarations of the anchored Go files differ from lib/drift_baseline.json: not an alarm, the comparison was deepened")
+        cov["evaluations"] += sum(p["cases"] for p in drift_passes)
+        cov["traces_validated_against_impl"] += sum(p["cases"] for p in drift_passes)
     ev = dict(property_id=pid, tier=tier, seed=seed, level=cfg.get("level", "proof"), coverage=cov,
               assumptions=cfg.get("assumptions", []), wall_s=round(wall, 2), violations=len(violations))
     # evidence/<id>.json; redirected (VERIF_EVIDENCE_DIR) only when trying seeded changes in a scratch worktree
